@@ -45,6 +45,18 @@ type scope struct {
 }
 
 func newScope(rootProvider *provider, parent *scope, ctx context.Context, cancel context.CancelFunc) (*scope, error) {
+	s := newUninitializedScope(rootProvider, parent, ctx, cancel)
+
+	if err := s.runInitializers(); err != nil {
+		return nil, err
+	}
+
+	return s, nil
+}
+
+// newUninitializedScope creates a scope without running the scoped
+// initialization functions; the caller must call runInitializers.
+func newUninitializedScope(rootProvider *provider, parent *scope, ctx context.Context, cancel context.CancelFunc) *scope {
 	if ctx == nil {
 		ctx = context.Background()
 	}
@@ -65,24 +77,31 @@ func newScope(rootProvider *provider, parent *scope, ctx context.Context, cancel
 	ctx = context.WithValue(ctx, scopeContextKey{}, s)
 	s.context = ctx
 
-	// Initialize scoped services with no returns (initialization functions)
-	// These need to be called when the scope is created
-	rootProvider.voidReturnScopedDescriptorsMu.RLock()
-	initializers := rootProvider.voidReturnScopedDescriptors
-	rootProvider.voidReturnScopedDescriptorsMu.RUnlock()
+	return s
+}
+
+// runInitializers runs the scoped services with no returns (initialization
+// functions). These need to be called when the scope is created. If one of
+// them fails the scope is closed, so that whatever the earlier ones created is
+// disposed and the scope's context is released.
+func (s *scope) runInitializers() error {
+	s.rootProvider.voidReturnScopedDescriptorsMu.RLock()
+	initializers := s.rootProvider.voidReturnScopedDescriptors
+	s.rootProvider.voidReturnScopedDescriptorsMu.RUnlock()
 
 	for _, descriptor := range initializers {
 		if _, err := s.createInstance(descriptor); err != nil {
-			return nil, &ResolutionError{
+			_ = s.Close()
+
+			return &ResolutionError{
 				ServiceType: descriptor.Type,
 				ServiceKey:  descriptor.Key,
 				Cause:       fmt.Errorf("failed to initialize scoped service: %w", err),
 			}
-
 		}
 	}
 
-	return s, nil
+	return nil
 }
 
 // Provider returns the parent provider that created this scope.
